@@ -10,7 +10,9 @@ ALT = {'container': [(['Rootfs=/var/lib/rootfs'], ('Image',)), (['Rootfs=/var/li
 VALS = ['k=1 k=2', 'a=1 b=2 a=3', '-/dev/null:/dev/n:rwm', '-/dev/null:/dev/n', '/dev/null:/dev/n:rwm', '-/dev/nope:/dev/n:rwm', 'x', 'a b', '"a b"', "'q'", 'yes', 'no', 'true', '0', '', 'k=v', 'k=v l=w', '"k=v w" z=1', 'a:b', 'a:b:c:d', '/abs/p', './rel/p', '../up',
         '%h/x', '10', '1-2/tcp', 'é', 'a\\nb', 'a\\x41', 'auto', 'manual', 'keep-id', 'image', 'x.volume:/d', 'type=bind,source=./s,target=/t',
         'type=tmpfs,dst=/x', 'foo.network', 'host', 'none:opt', 'oneshot', 'notify', 'mixed', 'healthy', 'yaml', 'unit', 'file', 'registry',
-        '-/dev/null', '-/dev/nope:rw', 'CAP_X y', 'a,b', 'a=b=c', '%%x', 'x y  z', '1000', 'keep-id:uid=1', 'local', 'nfs', '10.0.0.0/24']
+        '-/dev/null', '-/dev/nope:rw', 'CAP_X y', 'a,b', 'a=b=c', '%%x', 'x y  z', '1000', 'keep-id:uid=1', 'local', 'nfs', '10.0.0.0/24',
+        # the empty string in its quoted spellings, and a repeated word
+        '""', "''", 'w w', 'a.yml a.yml ./a.yml']
 
 
 def respell(rnd, k, v):
